@@ -376,7 +376,12 @@ class Response:
 
         fileno = respiter.filelike.fileno()
         try:
-            offset = os.lseek(fileno, 0, os.SEEK_CUR)
+            # where the application left the file *object*: the descriptor
+            # of a buffered file runs ahead of it by the read-ahead
+            if hasattr(respiter.filelike, 'tell'):
+                offset = respiter.filelike.tell()
+            else:
+                offset = os.lseek(fileno, 0, os.SEEK_CUR)
             if self.response_length is None:
                 filesize = os.fstat(fileno).st_size
                 nbytes = filesize - offset
